@@ -20,6 +20,8 @@ import (
 	"sync/atomic"
 	"syscall"
 	"time"
+
+	"verif/harness/freeport"
 )
 
 // ---------------------------------------------------------------- daemons
@@ -133,7 +135,7 @@ func (d *Daemon) Start(deadline time.Duration) error {
 	for {
 		select {
 		case <-w:
-			return fmt.Errorf("daemon %s exited during start (see %s)", d.Name, d.LogFile)
+			return fmt.Errorf("daemon %s exited during start (last output: %q)", d.Name, Tail(d.LogFile, 1200))
 		default:
 		}
 		c, err := Dial(d.Sock, 2*time.Second)
@@ -713,16 +715,8 @@ func (r *Relay) Close() {
 	r.ln.Close()
 }
 
-// FreePort returns a currently unused loopback TCP port.
-func FreePort() (int, error) {
-	ln, err := net.Listen("tcp", "127.0.0.1:0")
-	if err != nil {
-		return 0, err
-	}
-	defer ln.Close()
-
-	return ln.Addr().(*net.TCPAddr).Port, nil
-}
+// FreePort returns an unused loopback TCP port reserved for this process (package freeport: outside the ephemeral range).
+func FreePort() (int, error) { return freeport.Get() }
 
 // ---------------------------------------------------------------- misc
 
